@@ -7,4 +7,493 @@ import CoreBGP.Spec.Update
 namespace CoreBGP.Lemmas
 open CoreBGP CoreBGP.Model
 
+
+/-! ## slices -/
+
+
+theorem slice?_eq {b : Bytes} {i j : Nat} (h1 : i ≤ j) (h2 : j ≤ b.length) :
+    slice? b i j = some ((b.drop i).take (j - i)) := by
+  simp [slice?, h1, h2]
+
+theorem sliceFrom?_eq {b : Bytes} {i : Nat} (h : i ≤ b.length) :
+    sliceFrom? b i = some (b.drop i) := by
+  simp [sliceFrom?, h]
+
+theorem mpReach_no_panic (flags : UInt8) (b : Bytes) (fn : MPReachArgs → Option Err) :
+    mpReach flags b fn ≠ .panic := by
+  unfold mpReach
+  split
+  · split
+    · simp
+    · rename_i h
+      rw [slice?_eq (by omega) (by omega), sliceFrom?_eq (by omega)]
+      simp
+  · simp
+
+
+/-! ## decodeUpdate -/
+
+
+theorem length_two_eq {l : Bytes} (h : l.length = 2) : ∃ a b, l = [a, b] := by
+  match l, h with
+  | [a, b], _ => exact ⟨a, b, rfl⟩
+
+theorem decodeUpdate_no_panic (cb : Callbacks) (b : Bytes) : decodeUpdate cb b ≠ .panic := by
+  unfold decodeUpdate
+  split
+  · rename_i w1 w2 b'
+    split
+    · simp
+    · dsimp only
+      split
+      · simp
+      · rename_i h
+        have hlen : ((b'.drop (be16 w1 w2).toNat).take 2).length = 2 := by
+          simp; omega
+        obtain ⟨p1, p2, hp⟩ := length_two_eq hlen
+        rw [slice?_eq (by omega) (by omega), sliceFrom?_eq (by omega)]
+        simp only [Nat.add_sub_cancel_left, hp]
+        split
+        · simp
+        · rw [slice?_eq (by omega) (by omega)]
+          simp only []
+          split
+          · simp
+          · split
+            · simp
+            · simp
+  · simp
+
+
+/-! ## caps / params / open -/
+
+
+theorem u8_add2 (x : UInt8) (h : x.toNat + 2 < 256) : (x + 2).toNat = x.toNat + 2 := by
+  rw [UInt8.toNat_add]; simp; omega
+
+theorem decodeCapsLoop_no_panic : ∀ (fuel : Nat) (b : Bytes) (acc : List Cap),
+    b.length < fuel → b.length ≤ 255 → decodeCapsLoop fuel b acc ≠ .panic := by
+  intro fuel
+  induction fuel with
+  | zero => intro b acc h; omega
+  | succ fuel ih =>
+    intro b acc hf h255
+    unfold decodeCapsLoop
+    split
+    · rename_i capCode capLen tl
+      split
+      · simp [nerr]
+      · rename_i hlen
+        have hadd : (capLen + 2).toNat = capLen.toNat + 2 := u8_add2 _ (by omega)
+        have hv : (if capLen > 0 then slice? (capCode :: capLen :: tl) 2 (capLen + 2).toNat else some [])
+            = some (if capLen > 0 then ((capCode :: capLen :: tl).drop 2).take capLen.toNat else []) := by
+          split
+          · rw [hadd, slice?_eq (by omega) (by omega)]; simp
+          · rfl
+        dsimp only
+        rw [hv, sliceFrom?_eq (by omega)]
+        dsimp only
+        split
+        · simp
+        · apply ih
+          · simp at hf ⊢; omega
+          · simp at h255 ⊢; omega
+    · simp [nerr]
+
+theorem decodeCaps_no_panic (b : Bytes) (h : b.length ≤ 255) : decodeCaps b ≠ .panic :=
+  decodeCapsLoop_no_panic _ b [] (by omega) h
+
+
+
+theorem decodeParamsLoop_no_panic : ∀ (fuel : Nat) (b : Bytes) (acc : List (List Cap)),
+    b.length < fuel → b.length ≤ 255 → decodeParamsLoop fuel b acc ≠ .panic := by
+  intro fuel
+  induction fuel with
+  | zero => intro b acc h; omega
+  | succ fuel ih =>
+    intro b acc hf h255
+    unfold decodeParamsLoop
+    split
+    · rename_i pc pl tl
+      split
+      · simp [nerr]
+      · rename_i hlen
+        have hadd : (pl + 2).toNat = pl.toNat + 2 := u8_add2 _ (by omega)
+        have hv : (if pl > 0 then slice? (pc :: pl :: tl) 2 (pl + 2).toNat else some [])
+            = some (if pl > 0 then ((pc :: pl :: tl).drop 2).take pl.toNat else []) := by
+          split
+          · rw [hadd, slice?_eq (by omega) (by omega)]; simp
+          · rfl
+        dsimp only
+        rw [hv, sliceFrom?_eq (by omega)]
+        dsimp only
+        split
+        · have hc : decodeCaps (if pl > 0 then ((pc :: pl :: tl).drop 2).take pl.toNat else []) ≠ .panic := by
+            apply decodeCaps_no_panic
+            split
+            · simp at h255 ⊢; omega
+            · simp
+          split
+          · split
+            · simp
+            · apply ih
+              · simp at hf ⊢; omega
+              · simp at h255 ⊢; omega
+          · simp
+          · rename_i hp; exact absurd hp hc
+        · simp [nerr]
+    · simp [nerr]
+
+theorem decodeParams_no_panic (b : Bytes) (h : b.length ≤ 255) : decodeParams b ≠ .panic :=
+  decodeParamsLoop_no_panic _ b [] (by omega) h
+
+theorem decodeOpen_no_panic (b : Bytes) : decodeOpen b ≠ .panic := by
+  unfold decodeOpen
+  split
+  · rename_i v a1 a2 h1 h2 i1 i2 i3 i4 opl rest
+    split
+    · simp [nerr]
+    · rename_i hopl
+      have : rest.length ≤ 255 := by
+        have := UInt8.toNat_lt opl
+        omega
+      have hp := decodeParams_no_panic rest this
+      split
+      · simp
+      · simp
+      · rename_i h; exact absurd h hp
+  · simp [nerr]
+
+
+
+/-! ## NOTIFICATION encoding -/
+
+
+theorem be16Bytes_len16 (k : Nat) (h : k < 65536) : be16Bytes (len16 k) = Spec.u16 k := by
+  simp only [be16Bytes, len16, Spec.u16, UInt16.toNat_ofNat']
+  rw [Nat.mod_eq_of_lt (by simpa using h)]
+
+theorem prependHeader_eq_frame (m : Bytes) (t : UInt8) (h : m.length ≤ 4077) :
+    prependHeader m t = Spec.frame t m := by
+  unfold prependHeader Spec.frame Spec.marker
+  rw [be16Bytes_len16 _ (by simp only [Gen.headerLength]; omega)]
+  simp only [Gen.headerLength, Nat.add_comm]
+
+theorem encodeNotifBody_eq (n : Notif) : encodeNotifBody n = [n.code, n.sub] ++ n.data := by
+  unfold encodeNotifBody
+  split
+  · rfl
+  · rename_i h
+    have : n.data = [] := by
+      cases hd : n.data with
+      | nil => rfl
+      | cons a l => simp [hd] at h
+    simp [this]
+
+theorem notif_wire (n : Notif) (h : n.data.length ≤ 4075) :
+    encodeNotif n = Spec.frame 3 ([n.code, n.sub] ++ n.data) := by
+  unfold encodeNotif
+  rw [encodeNotifBody_eq, prependHeader_eq_frame _ _ (by simp; omega)]
+  rfl
+
+theorem truncated_no_notification (s : Bytes) (h : s.length < 19) : readAll s = ([], .other) := by
+  unfold readAll readLoop readOne
+  simp [Gen.headerLength, h]
+
+
+/-! ## reader: header classification and framing -/
+
+
+theorem be16_toNat (a b : UInt8) : (be16 a b).toNat = Spec.n16 a b := by
+  have := UInt8.toNat_lt a
+  have := UInt8.toNat_lt b
+  simp only [be16, Spec.n16, UInt16.toNat_ofNat']
+  apply Nat.mod_eq_of_lt
+  simp; omega
+
+theorem any_ne_iff_ne_marker (l : Bytes) (hl : l.length = 16) :
+    (l.any (· ≠ 0xFF) = true) ↔ l ≠ Spec.marker := by
+  unfold Spec.marker
+  rw [Ne, List.eq_replicate_iff]
+  simp [hl]
+
+/-- `readOne` on a stream that starts with a 19-byte header `h`, in specification vocabulary -/
+theorem readOne_header (h rest : Bytes) (hl : h.length = 19) :
+    readOne (h ++ rest) =
+      if h.take 16 ≠ Spec.marker then .error (.notif ⟨1, 1, []⟩ true)
+      else if Spec.n16 (h.getD 16 0) (h.getD 17 0) < 19 ∨ Spec.n16 (h.getD 16 0) (h.getD 17 0) > 4096 then
+        .error (.notif ⟨1, 2, []⟩ true)
+      else if rest.length < Spec.n16 (h.getD 16 0) (h.getD 17 0) - 19 then .error .other
+      else
+        match messageFromBytes (rest.take (Spec.n16 (h.getD 16 0) (h.getD 17 0) - 19)) (h.getD 18 0) with
+        | .ok m => .ok (m, rest.drop (Spec.n16 (h.getD 16 0) (h.getD 17 0) - 19))
+        | .error e => .error e := by
+  unfold readOne
+  have h1 : ¬ (h ++ rest).length < Gen.headerLength := by
+    simp [Gen.headerLength, hl]
+  have h2 : (h ++ rest).take Gen.headerLength = h := by
+    simp [Gen.headerLength, ← hl]
+  have h3 : (h ++ rest).drop Gen.headerLength = rest := by
+    simp [Gen.headerLength, ← hl]
+  rw [if_neg h1]
+  simp only [h2, h3, be16_toNat]
+  by_cases hm : h.take 16 ≠ Spec.marker
+  · rw [if_pos hm, if_pos ((any_ne_iff_ne_marker _ (by simp [hl])).2 hm)]
+    rfl
+  · rw [if_neg hm, if_neg (by rw [any_ne_iff_ne_marker _ (by simp [hl])]; exact hm)]
+    have e1 : ∀ n : Nat, ((decide (n < Gen.headerLength) || decide (n > Gen.maxMessageLength)) = true) ↔
+        (n < 19 ∨ n > 4096) := by
+      intro n
+      show ((decide (n < 19) || decide (n > 4096)) = true) ↔ _
+      simp
+    simp only [e1]
+    rfl
+
+/-- the 19-byte header of `Spec.frame` -/
+def fhdr (t : UInt8) (n : Nat) : Bytes := Spec.marker ++ Spec.u16 n ++ [t]
+
+theorem frame_eq (t : UInt8) (body rest : Bytes) :
+    Spec.frame t body ++ rest = fhdr t (19 + body.length) ++ (body ++ rest) := by
+  simp [Spec.frame, fhdr]
+
+theorem fhdr_length (t : UInt8) (n : Nat) : (fhdr t n).length = 19 := rfl
+theorem fhdr_take (t : UInt8) (n : Nat) : (fhdr t n).take 16 = Spec.marker := rfl
+theorem fhdr_16 (t : UInt8) (n : Nat) : (fhdr t n).getD 16 0 = UInt8.ofNat (n / 256) := rfl
+theorem fhdr_17 (t : UInt8) (n : Nat) : (fhdr t n).getD 17 0 = UInt8.ofNat (n % 256) := rfl
+theorem fhdr_18 (t : UInt8) (n : Nat) : (fhdr t n).getD 18 0 = t := rfl
+
+theorem n16_u16 (n : Nat) (h : n < 65536) :
+    Spec.n16 (UInt8.ofNat (n / 256)) (UInt8.ofNat (n % 256)) = n := by
+  simp only [Spec.n16, UInt8.toNat_ofNat']
+  omega
+
+/-- `readOne` on a stream that starts with a whole frame -/
+theorem readOne_frame (t : UInt8) (body rest : Bytes) (hb : body.length ≤ 4077) :
+    readOne (Spec.frame t body ++ rest) =
+      match messageFromBytes body t with
+      | .ok m => .ok (m, rest)
+      | .error e => .error e := by
+  rw [frame_eq, readOne_header _ _ (fhdr_length _ _)]
+  simp only [fhdr_take, fhdr_16, fhdr_17, fhdr_18, n16_u16 (19 + body.length) (by omega)]
+  rw [if_neg (by simp), if_neg (by omega), if_neg (by simp)]
+  simp
+
+theorem messageFromBytes_unknown (t : UInt8) (body : Bytes) (ht : Spec.knownType t = false) :
+    messageFromBytes body t = .error (.notif ⟨1, 3, [t]⟩ true) := by
+  unfold messageFromBytes
+  have h0 : ((t ≠ 1 ∧ t ≠ 2) ∧ t ≠ 3) ∧ t ≠ 4 := by
+    simpa [Spec.knownType] using ht
+  obtain ⟨⟨⟨h1, h2⟩, h3⟩, h4⟩ := h0
+  have e : ∀ k : Nat, t ≠ UInt8.ofNat k → ¬ t.toNat = k := by
+    intro k hk h
+    apply hk
+    rw [← h]
+    simp
+  rw [if_neg (e Gen.openMessageType h1), if_neg (e Gen.updateMessageType h2),
+    if_neg (e Gen.notificationMessageType h3), if_neg (e Gen.keepAliveMessageType h4)]
+  rfl
+
+
+
+/-! ## reader: no panic, fuel independence -/
+
+
+theorem decodeNotif_no_panic (b : Bytes) : decodeNotif b ≠ .panic := by
+  unfold decodeNotif
+  split <;> simp
+
+theorem messageFromBytes_no_panic (b : Bytes) (t : UInt8) : messageFromBytes b t ≠ .error .panic := by
+  unfold messageFromBytes
+  split
+  · have := decodeOpen_no_panic b
+    split <;> simp_all
+  · split
+    · simp
+    · split
+      · have := decodeNotif_no_panic b
+        split <;> simp_all
+      · split <;> simp
+
+theorem readOne_no_panic (s : Bytes) : readOne s ≠ .error .panic := by
+  unfold readOne
+  split
+  · simp
+  · dsimp only
+    split
+    · simp
+    · split
+      · simp
+      · split
+        · simp
+        · have := messageFromBytes_no_panic
+            (((s.drop Gen.headerLength)).take ((be16 ((s.take Gen.headerLength).getD 16 0) ((s.take Gen.headerLength).getD 17 0)).toNat - Gen.headerLength))
+            ((s.take Gen.headerLength).getD 18 0)
+          split
+          · simp
+          · rename_i e he
+            intro h
+            injection h with h
+            rw [h] at he
+            exact this he
+
+theorem readOne_consumes {s : Bytes} {m : RMsg} {rest : Bytes} (h : readOne s = .ok (m, rest)) :
+    rest.length + 19 ≤ s.length := by
+  unfold readOne at h
+  split at h
+  · simp at h
+  · rename_i hlen
+    dsimp only at h
+    split at h
+    · simp at h
+    · split at h
+      · simp at h
+      · split at h
+        · simp at h
+        · split at h
+          · injection h with h
+            injection h with _ h
+            rw [← h]
+            simp only [Gen.headerLength] at hlen ⊢
+            simp
+            omega
+          · simp at h
+
+theorem readLoop_fuel : ∀ (f1 f2 : Nat) (s : Bytes) (acc : List RMsg),
+    s.length < f1 → s.length < f2 → readLoop f1 s acc = readLoop f2 s acc := by
+  intro f1
+  induction f1 with
+  | zero => intro f2 s acc h; omega
+  | succ f1 ih =>
+    intro f2 s acc h1 h2
+    cases f2 with
+    | zero => omega
+    | succ f2 =>
+      unfold readLoop
+      cases hr : readOne s with
+      | error e => rfl
+      | ok p =>
+        obtain ⟨m, rest⟩ := p
+        have := readOne_consumes hr
+        exact ih f2 rest _ (by omega) (by omega)
+
+theorem readLoop_acc : ∀ (f : Nat) (s : Bytes) (acc : List RMsg),
+    readLoop f s acc = (acc ++ (readLoop f s []).1, (readLoop f s []).2) := by
+  intro f
+  induction f with
+  | zero => intro s acc; simp [readLoop]
+  | succ f ih =>
+    intro s acc
+    unfold readLoop
+    cases hr : readOne s with
+    | error e => simp
+    | ok p =>
+      obtain ⟨m, rest⟩ := p
+      dsimp only
+      rw [ih rest (acc ++ [m]), ih rest ([] ++ [m])]
+      simp
+
+theorem readLoop_no_panic : ∀ (f : Nat) (s : Bytes) (acc : List RMsg),
+    s.length < f → (readLoop f s acc).2 ≠ .panic := by
+  intro f
+  induction f with
+  | zero => intro s acc h; omega
+  | succ f ih =>
+    intro s acc h
+    unfold readLoop
+    cases hr : readOne s with
+    | error e =>
+      dsimp only
+      intro he
+      rw [he] at hr
+      exact readOne_no_panic s hr
+    | ok p =>
+      obtain ⟨m, rest⟩ := p
+      have := readOne_consumes hr
+      exact ih rest _ (by omega)
+
+theorem reader_no_panic (s : Bytes) : (readAll s).2 ≠ .panic :=
+  readLoop_no_panic _ s [] (by omega)
+
+/-- `readLoop` with enough fuel, in terms of `readAll` -/
+theorem readLoop_eq_readAll (f : Nat) (s : Bytes) (acc : List RMsg) (h : s.length < f) :
+    readLoop f s acc = (acc ++ (readAll s).1, (readAll s).2) := by
+  unfold readAll
+  rw [readLoop_acc, readLoop_fuel f (s.length + 1) s [] h (by omega)]
+
+/-- one step of `readAll` -/
+theorem readAll_step {s : Bytes} {m : RMsg} {rest : Bytes} (h : readOne s = .ok (m, rest)) :
+    readAll s = (m :: (readAll rest).1, (readAll rest).2) := by
+  have hc := readOne_consumes h
+  conv => lhs; unfold readAll readLoop
+  rw [h]
+  dsimp only
+  rw [readLoop_eq_readAll _ _ _ (by omega)]
+  simp
+
+
+
+/-! ## reader: a prefix of whole well-formed messages -/
+
+
+theorem messageFromBytes_known (t : UInt8) (body : Bytes) (ht : Spec.knownType t = true)
+    (h1 : t = 1 → ∃ o, decodeOpen body = .ok o) (h3 : t = 3 → 2 ≤ body.length) :
+    ∃ m, messageFromBytes body t = .ok m ∧ m.type = t ∧ ∀ b, m = .update b → b = body := by
+  have h0 : t = 1 ∨ t = 2 ∨ t = 3 ∨ t = 4 := by
+    simpa [Spec.knownType, or_assoc] using ht
+  rcases h0 with rfl | rfl | rfl | rfl
+  · obtain ⟨o, ho⟩ := h1 rfl
+    refine ⟨.open_ o, ?_, rfl, ?_⟩
+    · unfold messageFromBytes
+      rw [if_pos (by decide), ho]
+    · intro b hb; cases hb
+  · refine ⟨.update body, ?_, rfl, ?_⟩
+    · unfold messageFromBytes
+      rw [if_neg (by decide), if_pos (by decide)]
+    · intro b hb; cases hb; rfl
+  · have := h3 rfl
+    match body, this with
+    | c :: s :: d, _ =>
+      refine ⟨.notif ⟨c, s, d⟩, ?_, rfl, ?_⟩
+      · unfold messageFromBytes
+        rw [if_neg (by decide), if_neg (by decide), if_pos (by decide)]
+        rfl
+      · intro b hb; cases hb
+  · refine ⟨.keepalive, ?_, rfl, ?_⟩
+    · unfold messageFromBytes
+      rw [if_neg (by decide), if_neg (by decide), if_neg (by decide), if_pos (by decide)]
+    · intro b hb; cases hb
+
+theorem prefix_processed_aux (ms : List (UInt8 × Bytes)) (tail : Bytes)
+    (hms : ∀ m ∈ ms, Spec.knownType m.1 = true ∧ m.2.length ≤ 4077 ∧
+      (m.1 = 1 → ∃ o, decodeOpen m.2 = .ok o) ∧ (m.1 = 3 → 2 ≤ m.2.length)) :
+    ∃ rs : List RMsg, rs.length = ms.length ∧
+      (∀ i (hi : i < ms.length), ∀ r, rs[i]? = some r → r.type = (ms[i]'hi).1 ∧
+         (∀ b, r = .update b → b = (ms[i]'hi).2)) ∧
+      readAll ((ms.map fun m => Spec.frame m.1 m.2).flatten ++ tail) = (rs ++ (readAll tail).1, (readAll tail).2) := by
+  induction ms with
+  | nil => exact ⟨[], rfl, by intro i hi; simp at hi, by simp⟩
+  | cons x ms ih =>
+    obtain ⟨t, body⟩ := x
+    obtain ⟨hk, hb, h1, h3⟩ := hms (t, body) (by simp)
+    obtain ⟨rs, hlen, hidx, hread⟩ := ih (fun m hm => hms m (by simp [hm]))
+    obtain ⟨m, hm, hty, hupd⟩ := messageFromBytes_known t body hk h1 h3
+    refine ⟨m :: rs, by simp [hlen], ?_, ?_⟩
+    · intro i hi r hr
+      cases i with
+      | zero =>
+        simp at hr
+        subst hr
+        exact ⟨hty, hupd⟩
+      | succ i =>
+        simp at hr
+        exact hidx i (by simpa using hi) r hr
+    · have hone : readOne (Spec.frame t body ++ ((ms.map fun m => Spec.frame m.1 m.2).flatten ++ tail)) =
+          .ok (m, (ms.map fun m => Spec.frame m.1 m.2).flatten ++ tail) := by
+        rw [readOne_frame _ _ _ hb, hm]
+      have := readAll_step hone
+      simp only [List.map_cons, List.flatten_cons, List.append_assoc]
+      rw [this, hread]
+      simp
+
+
 end CoreBGP.Lemmas
